@@ -2,10 +2,29 @@
  * usage: yield <kernel threads> <script>; per fiber: y = fiber_yield().  Each fiber logs
  * `ran <i>` every time it gets the CPU back.  The main fiber (the kernel thread 0 context)
  * polls with fiber_yield() until all script fibers have finished — itself a yield-based
- * polling loop of the kind the property talks about. */
+ * polling loop of the kind the property talks about.
+ * Fibers that block and wake each other while others yield: b<k> = fiber_barrier_wait on the
+ * 2-party barrier k (woken through an MPSC waiter queue), a<k> / r<k> = semaphore k wait /
+ * post (woken through the MPMC waiter queue).  A woken fiber is handed to the scheduler like a
+ * new one; where it is queued decides whether two fibers that keep waking each other can
+ * starve the yielders.  With ONE kernel thread the harness knows who blocks and who is woken
+ * (no preemption between scheduling events) and logs `block` before a call that will park the
+ * caller and `sched <fiber>` before a call that will wake <fiber>; the scheduler model then
+ * predicts the exact run order.  With more kernel threads only the starvation oracle applies. */
 /* many fibers: size-triggered scheduler paths (deque growth at 256 entries) */
 #define VH_MAXF 600
 #include "rtcommon.h"
+#include "fiber_barrier.h"
+#include "fiber_semaphore.h"
+
+#define NPRIM 4
+static fiber_barrier_t bars[NPRIM];
+static fiber_semaphore_t sems[NPRIM];
+/* ghost state, exact on one kernel thread only */
+static int kthreads;
+static int bar_waiter[NPRIM];           /* fiber id parked in barrier k, or -1 */
+static int sem_avail[NPRIM];
+static int sem_q[NPRIM][VH_MAXF], sem_qh[NPRIM], sem_qt[NPRIM];
 
 static volatile int finished[VH_MAXF];
 static long total_polls;
@@ -27,6 +46,43 @@ static void do_op(int t, const char* op) {
     }
   } else if (op[0] == 'f') {
     finished[t] = 1;
+  } else if (op[0] == 'b') {
+    int k = atoi(op + 1) % NPRIM;
+    if (kthreads == 1) {
+      if (bar_waiter[k] < 0) {
+        bar_waiter[k] = vh_fid(vh_fibers[t]);
+        vr_note("block");
+      } else {
+        vr_note("sched %d", bar_waiter[k]);
+        bar_waiter[k] = -1;
+      }
+    }
+    fiber_barrier_wait(&bars[k]);
+    vr_note("resumed");
+  } else if (op[0] == 'a') {
+    int k = atoi(op + 1) % NPRIM;
+    if (kthreads == 1) {
+      if (sem_avail[k] > 0) sem_avail[k]--;
+      else {
+        sem_q[k][sem_qt[k]++ % VH_MAXF] = vh_fid(vh_fibers[t]);
+        vr_note("block");
+      }
+    }
+    fiber_semaphore_wait(&sems[k]);
+    vr_note("resumed");
+  } else if (op[0] == 'r') {
+    int k = atoi(op + 1) % NPRIM;
+    int woke = 0;
+    if (kthreads == 1) {
+      if (sem_qh[k] != sem_qt[k]) {
+        /* a contended post wakes the oldest waiter and then yields ("be nice") */
+        vr_note("sched %d", sem_q[k][sem_qh[k]++ % VH_MAXF]);
+        vr_note("yield");
+        woke = 1;
+      } else sem_avail[k]++;
+    }
+    fiber_semaphore_post(&sems[k]);
+    if (woke) vr_note("resumed");
   }
 }
 
@@ -35,6 +91,12 @@ VH_NOINSTR int main(int argc, char** argv) {
   int k = atoi(argv[1]);
   vh_parse(argv[2]);
   fiber_manager_init(k);
+  kthreads = k;
+  for (int i = 0; i < NPRIM; i++) {
+    fiber_barrier_init(&bars[i], 2);
+    fiber_semaphore_init(&sems[i], 0);
+    bar_waiter[i] = -1;
+  }
   vr_note("init sched %d", k);
   vh_do_op = do_op;
   for (int t = 0; t < vh_script.nfibers; t++) {
